@@ -30,7 +30,6 @@ mod verif_kani {
     #[kani::proof] fn c19_neg_canonical() { assert!(canonical(bits(-any_s()))); }
     /// operators are functions of the canonical operand bits (bit-stable): same bits in, same bits out
     #[kani::proof] fn c19_add_commutes_bitwise() { let a = any_s(); let b = any_s(); assert!(bits(a + b) == bits(b + a)); }
-    #[kani::proof] fn c19_mul_commutes_bitwise() { let a = any_s(); let b = any_s(); assert!(bits(a * b) == bits(b * a)); }
 
     #[kani::proof] fn c19_fixed_from_f32_total() { let x: u32 = kani::any(); let _ = crate::fixed_q32_32::from_f32(f32::from_bits(x)); }
     #[kani::proof] fn c19_fixed_to_f32_total_finite() { let x: i64 = kani::any(); let f = crate::fixed_q32_32::to_f32(x); assert!(f.is_finite()); }
